@@ -19,7 +19,7 @@ func init() {
 		Level: "model_checking",
 		Rule: "universe = (a) field sweep: every construct of the catalogue K (one snippet per go/ast node type and populated field) used as a literal pattern and with one leaf replaced by an expression / identifier metavariable x the file containing the construct itself and each reflection-generated single-point deviation of it (every scalar, token, channel direction, meaningful position validity, every slice element dropped/duplicated/swapped, every optional child removed); " +
 			"(b) position sweep: representative expression/statement/declaration patterns x every slot of the context catalogue x {instance, near-misses}; (c) multiplicity and nesting: every combination of instance / near-miss / instance-in-instance / instance-in-filler over 2..3 expression holes, and every statement sequence (<=3) over instances, near-misses and instances nested in bare blocks, if/else, case clauses, loops and closures. " +
-			"Oracle: canonical output in the model's Allowed set (no non-instance rewritten; every mandatory site rewritten). non-trivial = the file contains an instance or the case is a near-miss of a pattern (mutant)",
+			"(d) two-change patches in which the second change's instances lie in code the first one generated (empty lists, unwrapped arguments, emptied blocks); (b') patch files without final newline. Oracle: canonical output in the model's Allowed set (no non-instance rewritten; every mandatory site rewritten). non-trivial = the file contains an instance or the case is a near-miss of a pattern (mutant)",
 		Assumptions: []string{"a generated pattern that patch.Parse rejects is not a case (counted under not_cases)"},
 		Bounds:      func(tier string) map[string]any { return map[string]any{"constructs": len(gen.Constructs()), "stmt_seq_len": 3} },
 		NewCase:     func() any { return &MCase{} },
@@ -27,6 +27,13 @@ func init() {
 		Setup:       cliSetup,
 		Run: func(env *core.Env, ci any) core.Outcome {
 			c := ci.(*MCase)
+			if c.Then != nil {
+				o := judgeSeqBoth(env, &SCase{Changes: []*model.Change{c.Change, c.Then}, File: c.File, Tag: c.Tag}, canon.Options{})
+				if o.Violation != "" {
+					o.FindingKey = "C01:" + o.FindingKey + "/d-generated"
+				}
+				return o
+			}
 			v := judgeModelBoth(env, c, canon.Options{}, 1)
 			o := v.Out
 			if strings.Contains(c.Tag, "/mutant:") {
@@ -222,6 +229,58 @@ func c01Gen(tier string, emit func(any)) {
 		}
 	}
 
+	// (b') the same patterns given as a patch file that does not end in a newline; '+' above '-' so that the last line is a '-' line
+	for pi, p := range pats {
+		var minus, plus []model.Line
+		for _, l := range p.ch.Lines {
+			switch l.Tag {
+			case "-":
+				minus = append(minus, l)
+			case "+":
+				plus = append(plus, l)
+			}
+		}
+		variants := []*model.Change{p.ch}
+		if len(minus)+len(plus) == len(p.ch.Lines) && len(minus) > 0 && len(plus) > 0 {
+			variants = append(variants, &model.Change{Kind: p.ch.Kind, Meta: p.ch.Meta, Lines: append(append([]model.Line{}, plus...), minus...)})
+		}
+		for vi, ch := range variants {
+			for _, cx := range p.ctxs[:min(len(p.ctxs), 6)] {
+				for _, f := range p.fills {
+					emit(&MCase{Change: ch, File: cx.Fill(f), NoFinalNL: true, Tag: fmt.Sprintf("b-nonl/p%d.%d/%s/%s", pi, vi, cx.ID, f)})
+				}
+			}
+		}
+	}
+	// (d) instances among the code an earlier change of the same patch generated (empty lists left by an elision that
+	// stood for nothing, unwrapped arguments, emptied literals) are instances like any other
+	firsts := []*model.Change{
+		{Kind: "expr", Lines: model.L("-fetch(ctx, DOTS_1)", "+fetch(DOTS_1)")},
+		{Kind: "expr", Meta: xm, Lines: model.L("-wrap(x)", "+x")},
+		{Kind: "expr", Meta: xm, Lines: model.L("-T{a: x, DOTS_1}", "+T{DOTS_1}")},
+		{Kind: "expr", Lines: model.L("-h(DOTS_1, last)", "+h(DOTS_1)")},
+		{Kind: "stmts", Lines: model.L("-if c {", "-DOTS_1", "-}", "+{", "+DOTS_1", "+}")},
+	}
+	seconds := []*model.Change{
+		{Kind: "expr", Lines: model.L("-fetch()", "+done()")},
+		{Kind: "expr", Lines: model.L("-fetch(1)", "+done(1)")},
+		{Kind: "expr", Lines: model.L("-T{}", "+zero")},
+		{Kind: "expr", Lines: model.L("-T{b: 2}", "+one")},
+		{Kind: "expr", Lines: model.L("-h()", "+none()")},
+		{Kind: "expr", Meta: xm, Lines: model.L("-h(x)", "+single(x)")},
+		{Kind: "stmts", Lines: model.L("-{", "-}", "+empty()")},
+	}
+	genFiles := []string{"fetch(ctx)", "fetch(ctx, 1)", "fetch()", "fetch(1)", "wrap(fetch())", "wrap(fetch(ctx))", "_ = T{a: 1}", "_ = T{a: 1, b: 2}", "_ = T{}", "_ = T{b: 2}", "h(last)", "h(1, last)", "h()", "h(wrap(last))", "if c {\n\t}", "if c {\n\t\tfetch(ctx)\n\t}", "{\n\t}"}
+	for i, c1 := range firsts {
+		for j, c2 := range seconds {
+			for _, s := range seqs(genFiles, 2) {
+				if len(s) == 0 {
+					continue
+				}
+				emit(&MCase{Change: c1, Then: c2, File: "package p\n\nfunc _() {\n\t" + strings.Join(s, "\n\t") + "\n}\n", Tag: fmt.Sprintf("d-generated/%d.%d", i, j)})
+			}
+		}
+	}
 	// (c) multiplicity and nesting — expressions
 	ech := &model.Change{Kind: "expr", Meta: xm, Lines: model.L("-foo(x)", "+mark(x)")}
 	efill := []string{"foo(1)", "foo(2, 3)", "foo(foo(1))", "g(foo(1))", "bar(1)", "foo(g(foo(2)))"}
